@@ -402,55 +402,90 @@ func c15Tables(c *Ctx) {
 	prom := p.Pkg("internal/promapi")
 	info := prom.TypesInfo
 	if det := c.MustFunc("C15-R2", "internal/promapi.decodeErrorType"); det != nil {
-		n := 0
-		for _, sw := range findSwitches(det.Decl.Body, func(s *ast.SwitchStmt) bool { return s.Tag != nil }) {
-			cases, deflt := switchCases(sw)
-			for _, cs := range cases {
-				word, ok := constString(info, cs.Expr)
-				rets := returnsIn(cs.Clause.Body)
-				if !ok || len(rets) != 1 {
-					c.Undecided("C15-R2", "decodeErrorType:case:"+exprStr(cs.Expr), cs.Expr.Pos(), "unexpected case shape")
-					continue
-				}
-				got, _ := constString(info, rets[0].Results[0])
-				n++
-				c.Check(got == word, "C15-R2", "decodeErrorType:"+word, cs.Clause.Pos(), "identity", "errorType "+strq(word)+" decodes to "+strq(got))
+		// decided by evaluation: the seven words of the v1 API decode to themselves, anything else to a
+		// type that is not server_error (an unknown word must not look like an outage)
+		sig := det.Obj.Type().(*types.Signature)
+		run := func(w string) (string, string) {
+			ev := &miniEval{info: info, prog: p, env: map[types.Object]mval{}}
+			if sig.Params().Len() == 1 {
+				ev.env[sig.Params().At(0)] = mStr(w)
 			}
-			okDef := false
-			if deflt != nil {
-				rets := returnsIn(deflt.Body)
-				if len(rets) == 1 {
-					got, _ := constString(info, rets[0].Results[0])
-					okDef = got != "server_error"
+			ctl := ev.block(det.Decl.Body.List)
+			if ev.undec != "" || ctl.kind != 'r' || ctl.ret.k != mvStr {
+				u := ev.undec
+				if u == "" {
+					u = "no string result"
 				}
+				return "", u
 			}
-			c.Check(okDef, "C15-R2", "decodeErrorType:unknown word is not server_error", det.Decl.Pos(), "unknown -> not unavailable", "unknown error types decode to server_error (treated as unavailable)")
+			return ctl.ret.s, ""
 		}
+		n := 0
+		for _, w := range []string{"bad_data", "timeout", "canceled", "execution", "bad_response", "server_error", "client_error"} {
+			got, u := run(w)
+			if u != "" {
+				c.Undecided("C15-R2", "decodeErrorType:"+w, det.Decl.Pos(), "could not be evaluated: "+u)
+				continue
+			}
+			n++
+			c.Check(got == w, "C15-R2", "decodeErrorType:"+w, det.Decl.Pos(), "identity", "errorType "+strq(w)+" decodes to "+strq(got))
+		}
+		okDef := true
+		for _, w := range []string{"bogus", "", "server", "SERVER_ERROR", "server_error "} {
+			if got, u := run(w); u != "" || got == "server_error" {
+				okDef = false
+			}
+		}
+		c.Check(okDef, "C15-R2", "decodeErrorType:unknown word is not server_error", det.Decl.Pos(), "unknown -> not unavailable", "unknown error types decode to server_error (treated as unavailable)")
 		c.Check(n >= 7, "C15-R2", "decodeErrorType:seven known words", det.Decl.Pos(), itoa(n), "only "+itoa(n)+" error type words handled")
 	}
 	if iu := c.MustFunc("C15-R2", "internal/promapi.IsUnavailableError"); iu != nil {
-		rets := returnsIn(iu.Decl.Body.List)
-		okAPI, okDefault := false, false
-		for i, r := range rets {
-			if be, ok := ast.Unparen(r.Results[0]).(*ast.BinaryExpr); ok && be.Op == token.EQL && fieldSel(info, be.X, "internal/promapi.APIError", "ErrorType") {
-				if v, ok := constString(info, be.Y); ok && v == "server_error" {
-					okAPI = true
+		// decided by evaluation (minieval.go): errors.As(err, &e) is the oracle that says whether the error is
+		// an API error and, if so, of which type; the verdict must be `not an API error, or type server_error`
+		sig := iu.Obj.Type().(*types.Signature)
+		bad, undec := "", ""
+		words := []string{"server_error", "client_error", "bad_data", "timeout", "canceled", "execution", "unavailable", "bad_response", "unknown"}
+		for _, isAPI := range []bool{false, true} {
+			for _, w := range words {
+				ev := &miniEval{info: info, prog: p, env: map[types.Object]mval{}}
+				if sig.Params().Len() == 1 {
+					ev.env[sig.Params().At(0)] = mval{k: mvRec, rec: map[string]mval{}}
 				}
-			}
-			if i == len(rets)-1 && exprStr(r.Results[0]) == "true" {
-				okDefault = true
+				ev.oracle = func(ev *miniEval, call *ast.CallExpr) (mval, bool) {
+					fn := Callee(info, call)
+					if fn == nil || fn.Pkg() == nil || fn.Pkg().Path() != "errors" || fn.Name() != "As" || len(call.Args) != 2 {
+						return mval{}, false
+					}
+					if u, isU := ast.Unparen(call.Args[1]).(*ast.UnaryExpr); isU && u.Op == token.AND {
+						if o := objOf(info, u.X); o != nil && strings.HasSuffix(typeQName(o.Type()), "promapi.APIError") {
+							if isAPI {
+								ev.env[o] = mval{k: mvRec, rec: map[string]mval{"ErrorType": mStr(w)}}
+							}
+							return mBool(isAPI), true
+						}
+					}
+					ev.fail("errors.As with a target that is not an APIError variable")
+					return mval{}, true
+				}
+				ctl := ev.block(iu.Decl.Body.List)
+				if ev.undec != "" || ctl.kind != 'r' || ctl.ret.k != mvBool {
+					undec = ev.undec
+					if undec == "" {
+						undec = "no boolean result"
+					}
+					continue
+				}
+				want := !isAPI || w == "server_error"
+				if ctl.ret.b != want && bad == "" {
+					bad = "for " + map[bool]string{true: "an API error of type " + w, false: "an error that is not an API error"}[isAPI] + " it answers " + boolStr(ctl.ret.b)
+				}
 			}
 		}
-		usesAs := false
-		ast.Inspect(iu.Decl.Body, func(n ast.Node) bool {
-			if call, ok := n.(*ast.CallExpr); ok {
-				if fn := Callee(info, call); fn != nil && fn.Pkg() != nil && fn.Pkg().Path() == "errors" && fn.Name() == "As" {
-					usesAs = true
-				}
-			}
-			return true
-		})
-		c.Check(len(rets) == 2 && okAPI && okDefault && usesAs, "C15-R2", "IsUnavailableError: APIError => type==server_error, else true", iu.Decl.Pos(), "documented classification", "IsUnavailableError no longer means `API error of type server_error, or any transport error`")
+		if undec != "" {
+			c.Undecided("C15-R2", "IsUnavailableError: APIError => type==server_error, else true", iu.Decl.Pos(), "could not be evaluated: "+undec)
+		} else {
+			c.Check(bad == "", "C15-R2", "IsUnavailableError: APIError => type==server_error, else true", iu.Decl.Pos(), "documented classification", "IsUnavailableError no longer means `API error of type server_error, or any transport error`: "+bad)
+		}
 	}
 	if td := c.MustFunc("C15-R2", "internal/promapi.tryDecodingAPIError"); td != nil {
 		got := map[int64]string{}
@@ -493,6 +528,87 @@ func c15Tables(c *Ctx) {
 			got := strings.Join(txt, " && ")
 			c.Check(got == "err != nil", "C15-R2", "tryDecodingAPIError:status-code fallback exactly when the body does not decode", sw.Pos(), got,
 				"the HTTP-status fallback (5xx -> server_error, 4xx -> client_error) is taken under `"+got+"`, expected exactly `err != nil` of the body decoder: a 5xx answer whose body is cut short after the status field is then classified from a half-read body (not as unavailable, so no failover)")
+		}
+		if len(got) == 0 {
+			// no switch over the status class: the same table through guards. Every place that fixes an
+			// error type — an APIError literal with a constant type, or an assignment of a constant to the
+			// variable a literal takes its type from — is read with the facts it stands under
+			// (`class == 4`, where class is StatusCode / 100, possibly held in a local)
+			classOf := func(n ast.Node) (int64, bool, []string) {
+				var rest []string
+				var cls int64
+				found := false
+				for _, g := range lexicalGuards(pmTD, n, td.Decl.Body) {
+					isClass := false
+					var subj, kexpr ast.Expr
+					if g.Tag != nil {
+						subj, kexpr = g.Tag, g.E
+					} else if be, ok := ast.Unparen(g.E).(*ast.BinaryExpr); ok && be.Op == token.EQL {
+						subj, kexpr = be.X, be.Y
+					}
+					if subj != nil {
+						d := ast.Unparen(subj)
+						if id, isID := d.(*ast.Ident); isID {
+							d = ast.Unparen(singleDef(info, td.Decl.Body, id))
+						}
+						if q, isQ := d.(*ast.BinaryExpr); isQ && q.Op == token.QUO {
+							if k, isC := constInt(info, kexpr); isC {
+								isClass = true
+								if g.Truth {
+									cls, found = k, true
+								}
+							}
+						}
+					}
+					if !isClass {
+						rest = append(rest, atomStr(info, g))
+					}
+				}
+				return cls, found, rest
+			}
+			var fallbackGuards []string
+			haveFallback := false
+			for _, cl := range compositeLits(info, td.Decl.Body, "internal/promapi.APIError") {
+				v := litField(cl, "ErrorType")
+				if v == nil {
+					continue
+				}
+				if t, isC := constString(info, v); isC {
+					if k, ok, rest := classOf(cl); ok {
+						got[k] = t
+						fallbackGuards, haveFallback = rest, true
+					}
+					continue
+				}
+				vo := objOf(info, v)
+				if vo == nil {
+					continue
+				}
+				ast.Inspect(td.Decl.Body, func(nd ast.Node) bool {
+					as, isAs := nd.(*ast.AssignStmt)
+					if !isAs || len(as.Lhs) != len(as.Rhs) {
+						return true
+					}
+					for i, l := range as.Lhs {
+						if objOf(info, l) != vo {
+							continue
+						}
+						if t, isC := constString(info, as.Rhs[i]); isC {
+							if k, ok, rest := classOf(as); ok {
+								got[k] = t
+								fallbackGuards, haveFallback = rest, true
+							}
+						}
+					}
+					return true
+				})
+			}
+			if haveFallback {
+				sort.Strings(fallbackGuards)
+				gtxt := strings.Join(fallbackGuards, " && ")
+				c.Check(gtxt == "err != nil", "C15-R2", "tryDecodingAPIError:status-code fallback exactly when the body does not decode", td.Decl.Pos(), gtxt,
+					"the HTTP-status fallback (5xx -> server_error, 4xx -> client_error) is taken under `"+gtxt+"`, expected exactly `err != nil` of the body decoder: a 5xx answer whose body is cut short after the status field is then classified from a half-read body (not as unavailable, so no failover)")
+			}
 		}
 		c.Check(got[4] == "client_error", "C15-R2", "tryDecodingAPIError:4xx without JSON -> client_error", td.Decl.Pos(), "client", "undecodable 4xx maps to "+strq(got[4]))
 		c.Check(got[5] == "server_error", "C15-R2", "tryDecodingAPIError:5xx without JSON -> server_error", td.Decl.Pos(), "server", "undecodable 5xx maps to "+strq(got[5]))
